@@ -76,6 +76,17 @@ class FuncAnalysis:
         self.callsites: Dict[int, CallSite] = {id(cs.node): cs for cs in self.model.calls.get(fi.qual, [])}
         self.globals_declared: Set[str] = set()
         self.changed = False
+        # A parameter that a statement of the function's top level re-binds (`options = normalise(options)`): what the name holds
+        # after that statement is a different variable from the parameter -- everything else is flow-insensitive.  Code at the top
+        # level of a function runs in textual order, so the position of a use decides which of the two it is.
+        self.rebound: Dict[str, Tuple[int, int]] = {}
+        if not fi.is_module_body:
+            pnames_ = {a.arg for a in fi.node.args.args + fi.node.args.kwonlyargs}
+            for st_ in fi.node.body:
+                if isinstance(st_, ast.Assign) and len(st_.targets) == 1 and isinstance(st_.targets[0], ast.Name) \
+                        and st_.targets[0].id in pnames_ and st_.targets[0].id not in self.rebound:
+                    self.rebound[st_.targets[0].id] = (st_.targets[0].lineno, st_.targets[0].col_offset,
+                                                       st_.end_lineno or st_.lineno, st_.end_col_offset or 0)
         if not fi.is_module_body:
             for n in ast.walk(fi.node):
                 if isinstance(n, ast.Global):
@@ -308,10 +319,20 @@ class FuncAnalysis:
             x = x.value
         return isinstance(x, ast.Name) and x.id not in self.locals and x.id != "self"
 
+    def _key(self, e: ast.Name) -> str:
+        rb = self.rebound.get(e.id)
+        if rb is None:
+            return e.id
+        tl, tc, el, ec = rb
+        pos = (getattr(e, "lineno", 0), getattr(e, "col_offset", 0))
+        if pos == (tl, tc) or pos >= (el, ec):
+            return e.id + "#rebound"
+        return e.id
+
     def name_load(self, e: ast.Name) -> Set[AO]:
         nm = e.id
         if nm in self.locals and nm not in self.globals_declared:
-            return self.pts.setdefault(nm, set())
+            return self.pts.setdefault(self._key(e), set())
         bd = self.model.scopes[self.fi.module].get(nm)
         if bd is None:
             return set()
@@ -339,7 +360,7 @@ class FuncAnalysis:
         if isinstance(t, ast.Name):
             if t.id in self.globals_declared or self.fi.is_module_body:
                 return
-            self.add(self.pts.setdefault(t.id, set()), vals)
+            self.add(self.pts.setdefault(self._key(t), set()), vals)
         elif isinstance(t, (ast.Tuple, ast.List)):
             inner = vals | self.deref(vals, 1)
             for x in t.elts:
@@ -406,7 +427,7 @@ class FuncAnalysis:
                 if t.id in self.globals_declared:
                     self.mutate(("G", f"{self.fi.module}.{t.id}", 0), f"global-rebind:{t.id}", st)
                 else:
-                    cur = self.pts.setdefault(t.id, set())
+                    cur = self.pts.setdefault(self._key(t), set())
                     # x += [..] on a list mutates it in place
                     for o in list(cur):
                         if v:
